@@ -566,6 +566,14 @@ fn funcs(r: &mut Runner, t: bool) {
             func_case!(r, "usize,BitFieldVec<usize>,[u64;2],FuseLge3Shards", n, &c, keys = usize, W = usize, D = BitFieldVec<usize>, S = [u64; 2], E = FuseLge3Shards);
         }
         if t || n == 150_000 {
+            // offline store with fewer / as many / more buckets than shards (the on-disk splitter and merger)
+            for (lb, h) in [(Some(0), Hint::Absent), (Some(1), Hint::Absent), (Some(3), Hint::Absent), (None, Hint::Exact), (None, Hint::Half), (None, Hint::K800)] {
+                let c = Cfg { offline: true, log2_buckets: lb, hint: h, ..d.clone() };
+                func_case!(r, "usize,BitFieldVec<usize>,[u64;2],FuseLge3Shards", n, &c, keys = usize, W = usize, D = BitFieldVec<usize>, S = [u64; 2], E = FuseLge3Shards);
+                if lb != Some(3) {
+                    func_case!(r, "usize,Box<[usize]>,[u64;2],FuseLge3FullSigs", n, &c, keys = usize, W = usize, D = Box<[usize]>, S = [u64; 2], E = FuseLge3FullSigs);
+                }
+            }
             // sharded builds of the non-default logics (two shards at 150 000 keys)
             func_case!(r, "usize,Box<[usize]>,[u64;2],Mwhc3Shards", n, &d, keys = usize, W = usize, D = Box<[usize]>, S = [u64; 2], E = Mwhc3Shards);
             func_case!(r, "usize,Box<[usize]>,[u64;2],FuseLge3FullSigs", n, &d, keys = usize, W = usize, D = Box<[usize]>, S = [u64; 2], E = FuseLge3FullSigs);
